@@ -145,7 +145,16 @@ def iter_item(ctx, it, tag):
         if isinstance(src, Seq):
             if D.hi(ctx.S.ivof(src.len)) == 0:
                 return None, True  # the empty string has no characters
+            at_start_nonempty = it.n is None and D.lo(ctx.S.ivof(src.len)) >= 1
             ctx.S.add_fact(Lin.const(1).sub(ctx.S.term(src.len)))  # an item exists: len >= 1 (callers work on a state copy)
+            from .models3 import chars_first_item
+
+            iv0 = chars_first_item(ctx, it)  # the first character, from the first byte (None once the iterator moved)
+            if iv0 is not None:
+                if not iv0:
+                    ctx.S.dead = True
+                    return None, True
+                return Scalar(ctx.fresh(tag + "ch0", (0, 0x10FFFF), iv0)), not at_start_nonempty
         return Scalar(ctx.fresh(tag + "ch", (0, 0x10FFFF))), True
     if k == "repeat":
         return it.a, False
@@ -563,6 +572,8 @@ def m_chars_as_str(ctx):
     it = ctx.deref(ctx.args[0], "self")
     if isinstance(it, Iter) and isinstance(it.a, Ref):
         v = ctx.deref(it.a, "src")
+        if isinstance(v, Seq) and it.n is None:
+            return it.a  # nothing consumed yet: the string itself
         if isinstance(v, Seq):
             ns = ctx.fresh("rest", I.len_rng(), D.rng(0, D.hi(S.ivof(v.len))))
             S.add_fact(Lin.var(ns).sub(S.term(v.len)))
@@ -974,6 +985,12 @@ def m_next2(ctx):
     ctx.I.iter_sites[(ctx.frame, ctx.bi)] = bool(it.finite) and it.kind != "opaque"
     for h in ctx.I.hooks:
         h("iter_next", interp=ctx.I, ctx=ctx, it=it, item=item, item_state=T)
+    if it.kind == "chars" and it.n is None and isinstance(ctx.args[0], Ref) and ctx.args[0].cell is not None:
+        # the iterator is no longer at the start of the string (in both outcomes)
+        moved = Iter("chars", it.a, it.b, "advanced", it.finite)
+        for X in (T, ctx.S):
+            if not X.dead:
+                ctx.I.write(X, ctx.args[0].cell, ctx.args[0].path, moved, ctx.site + ("chadv",))
     cases = []
     if item is not None and not T.dead:
         cases.append((T, some(item)))
@@ -1359,3 +1376,5 @@ def m_ordering_pred(ctx):
 @M.reg("core::ops::range::RangeInclusive::<Idx>::new")
 def m_range_inclusive_new(ctx):
     return Struct("core::ops::range::RangeInclusive", [ctx.args[0], ctx.args[1], Scalar(ctx.I.const_sym(0, (0, 1), ctx.S))])
+
+from . import models3  # noqa: E402,F401  (exact first-character tests; registers over the coarse models)
